@@ -180,10 +180,9 @@ package table
 //@   params s, pattern
 //@   modifies nothing
 
-// "/tables/" + name (fmt.Sprintf is outside the engine's subset: assumed)
+// "/tables/" + name, byte for byte: no cleaning, no separator handling (names are validated elsewhere)
 //@ func storedTableName
-//@   assumed
-//@   ensures result == "/tables/" + name
+//@   ensures [C14.key.name] result == "/tables/" + name
 //@   modifies nothing
 
 // no successful write through the handle except to key a (and b)
@@ -509,6 +508,19 @@ package table
 //@   requires *m != nil && (*m).store != nil && (*m).nh != nil
 //@   ensures err == nil ==> tabs != nil && nhi != nil
 //@   modifies (*m).lastTables
+
+// reconcileLoop: the periodic reconciliation keeps running for the life of the manager - the loop is
+// left only by a select that fired on the manager's closed channel (a leaderless store or a failed
+// reconcile skips one round, it does not end the service)
+//@ iface table.leaderStore.HasLeader
+//@   assumed
+//@   modifies nothing
+//@ func (*Manager).reconcileLoop
+//@   maypanic
+//@   requires m != nil && m.log != nil && m.store != nil && m.nh != nil && allocated(m.closed)
+//@   modifies m.lastTables, m.store.rHas, m.store.rPair, m.store.nwk, m.store.wVal, m.store.wVer, m.store.wDel, m.store.wPrevHas, m.store.wPrev, world.clock
+//@   loop 0 invariant m.log != nil && m.store != nil && m.nh != nil && t != nil && t.C != m.closed && m.closed == old(m.closed)
+//@   loop 0 exit [C14.reconcile.alive] world.lastSel == m.closed
 
 // reconcile starts only shards diffTables asked to start, each under the name of the record
 // diffTables mapped it to, and stops only shards diffTables asked to stop.
